@@ -72,7 +72,7 @@ func (f *FileStream) read(n int) ([]rune, error) {
 	}
 	f.encBuffer = remains
 
-	if !f.hasRead {
+	if !f.hasRead && len(data) > 0 {
 		f.hasRead = true
 		// detect BOM, if BOM on the first char, then remove it directly.
 		if len(data) > 0 && data[0] == BOM {
